@@ -261,6 +261,18 @@ func (e *Engine) atReturn(st *State, fr *Frame, res Val, x *ssa.Return) {
 			e.curClause = cl
 			e.oblige(st.cloneForOblige(), "ensures", fmt.Sprintf("ensures#%d", cl.Ord), g, pos, cl.Props, cl.Text)
 			e.curClause = nil
+		case "cover":
+			// some execution must reach a return in a state satisfying the expression (vacuity / reachability guard)
+			if vc.caseName != cl.Case {
+				continue
+			}
+			g := e.evalBool(ctx, cl.Expr)
+			if g.IsFalse() {
+				// not on this path; remember that the clause exists so that "no instance at all" is reported as vacuous
+				e.obls = append(e.obls, &Obligation{Name: e.oname(fmt.Sprintf("vacuity/cover#%d", cl.Ord)), Func: e.fnKey(vc.fn), Kind: "cover", Goal: True, Trivial: true, Status: "unsat", Props: c.Props, Pos: posString(e.fset, pos), Clause: cl.Text})
+				continue
+			}
+			e.obls = append(e.obls, &Obligation{Name: e.oname(fmt.Sprintf("vacuity/cover#%d", cl.Ord)), Func: e.fnKey(vc.fn), Kind: "cover", PC: append([]*Term(nil), st.pc...), Goal: Not(g), Props: c.Props, Pos: posString(e.fset, pos), Clause: cl.Text})
 		case "canary":
 			if vc.caseName != cl.Case {
 				continue
@@ -399,11 +411,13 @@ func (e *Engine) applyContractEnv(st *State, fr *Frame, c *Contract, env map[str
 	case 0:
 		res = Val{rs, nil}
 	case 1:
-		res = freshVal(rs.At(0).Type(), "r_"+calleeName)
+		res = freshValAny(rs.At(0).Type(), "r_"+calleeName)
 	default:
-		res = freshVal(rs, "r_"+calleeName)
+		res = freshValAny(rs, "r_"+calleeName)
 	}
-	st.assumeRefsOld(res)
+	// results may refer to objects passed in by the caller, including ones allocated during this call
+	st.assumeSliceWF(res)
+	st.assumeRefsExist(res)
 	// fresh results: "fresh NAME" clauses give newly allocated references
 	renv := map[string]Val{}
 	for k, v := range env {
@@ -742,10 +756,10 @@ func (e *Engine) evalPureInvoke(c *evalCtx, recv Val, m *types.Func, args []Val)
 		rv := e.unbox(c.st, recv, T)
 		return e.evalPureCall(c, fn, append([]Val{rv}, args...))
 	}
-	if tag.Op == OConst {
+	sig := m.Type().(*types.Signature)
+	if tag.Op == OConst && typeOfTag[tag.Val] != nil {
 		return callOn(typeOfTag[tag.Val])
 	}
-	sig := m.Type().(*types.Signature)
 	if ci := e.closedImpls(recv.T); ci != nil {
 		var v Val
 		first := true
